@@ -403,6 +403,9 @@ Proof.
     eapply perm_trans; [apply perm_skip, IH; reflexivity | apply perm_swap].
 Qed.
 
+Lemma nodup_app_r {A} (l1 l2 : list A) : NoDup (l1 ++ l2) -> NoDup l2.
+Proof. induction l1 as [|a l1 IH]; cbn; [auto|]. intros H. inversion H; auto. Qed.
+
 Definition uniq (st : state) : Prop := NoDup (map wid (pending st)).
 
 Lemma uniq_perm st st' : Permutation (pending st) (pending st') -> uniq st -> uniq st'.
@@ -455,7 +458,7 @@ Proof.
   destruct (take_waiter (wid x) (woken st)) as [[y r]|] eqn:T.
   - destruct (take_waiter_some _ _ _ _ T) as (H1 & H2 & _).
     exists r. f_equal. f_equal.
-    unfold uniq, pending in Hu. rewrite map_app in Hu. apply NoDup_app_remove_l in Hu.
+    unfold uniq, pending in Hu. rewrite map_app in Hu. apply nodup_app_r in Hu.
     clear - Hu H1 H2 Hin. induction (woken st) as [|a l IH]; [contradiction|].
     cbn in Hu. inversion Hu as [|? ? Hni Hu']; subst.
     destruct H2 as [->|H2], Hin as [->|Hin]; auto.
@@ -477,7 +480,7 @@ Proof.
   destruct (run true st1 tr) as [st2 log] eqn:Er.
   assert (Es1 : st1 = fst (step true st now ev)) by now rewrite Es.
   pose proof (uniq_step st now ev Hu Hf1) as Hu1. rewrite <- Es1 in Hu1.
-  cbn [fst] in Hf2. rewrite Es in Hf2; cbn [fst] in Hf2.
+  cbn [fst] in Hf2.
   destruct ev as [id w tc to | w | w | | id | id].
   6: destruct (N.eq_dec id (wid x)) as [-> | Hne].
   6: { (* the waiter itself runs: it returns *)
@@ -510,3 +513,59 @@ Proof.
   destruct H as [H | [H1 H2]]; [left; exact H | right].
   split; [assumption | now apply uniq_woken_not_waiting].
 Qed.
+
+(* ---------- the pinned tree (fx = false) violates the property: regression examples ---------- *)
+
+Definition wit_timeout : list (Z * sop) :=
+  [(4, SAcq 1 (mkM 1 1) 10); (8, SAcq 2 (mkM 1 1) 6)]%Z.
+
+(* pinned tree: the second Acquire never returns, and the specification rejects that *)
+Example sem_old_timeout_refuted :
+  snd (simulate false (mkM 1 100) [] wit_timeout) = [BRet 1 true 4; BNever 2] /\
+  spec_check (mkM 1 100) wit_timeout (digest_of (snd (simulate false (mkM 1 100) [] wit_timeout))) = false.
+Proof. split; vm_compute; reflexivity. Qed.
+
+(* repaired: it returns false at its deadline 8 + 6 *)
+Example sem_timeout_witness_ok :
+  snd (simulate true (mkM 1 100) [] wit_timeout) = [BRet 1 true 4; BRet 2 false 14] /\
+  spec_check (mkM 1 100) wit_timeout (digest_of (snd (simulate true (mkM 1 100) [] wit_timeout))) = true.
+Proof. split; vm_compute; reflexivity. Qed.
+
+Definition wit_wrap : list (Z * sop) :=
+  [(4, STry (mkM 1 1)); (8, STry (mkM 4294967295 0)); (12, SProc)]%Z.
+
+(* pinned tree: 1 + (2^32-1) wraps to 0 <= 10: a request far above the capacity is granted *)
+Example sem_old_wrap_refuted :
+  snd (simulate false (mkM 10 1000) [] wit_wrap) = [BTry true; BTry true; BProc (mkM 0 1)] /\
+  spec_check (mkM 10 1000) wit_wrap (digest_of (snd (simulate false (mkM 10 1000) [] wit_wrap))) = false.
+Proof. split; vm_compute; reflexivity. Qed.
+
+Example sem_wrap_witness_ok :
+  snd (simulate true (mkM 10 1000) [] wit_wrap) = [BTry true; BTry false; BProc (mkM 1 1)] /\
+  spec_check (mkM 10 1000) wit_wrap (digest_of (snd (simulate true (mkM 10 1000) [] wit_wrap))) = true.
+Proof. split; vm_compute; reflexivity. Qed.
+
+(* ---------- non-vacuity: a reachable state with a blocked and a runnable waiter ---------- *)
+Definition ex_trace : list (Z * event) :=
+  [(0, ECall 1 (mkM 2 10) 0 100); (1, ECall 2 (mkM 1 5) 1 20); (2, ECall 3 (mkM 2 1) 2 50);
+   (3, ERelease (mkM 1 0))]%Z.
+Definition ex_state : state := fst (run true (init (mkM 2 20)) ex_trace).
+
+Lemma run_reachable c tr : forall st, reachable c st -> Forall (fun x => ev_wf (snd x)) tr ->
+  reachable c (fst (run true st tr)).
+Proof.
+  induction tr as [|[now ev] tr IH]; intros st H Hwf; cbn [run]; [exact H|].
+  inversion Hwf as [|? ? H1 H2]; subst. cbn in H1.
+  pose proof (reach_step c st now ev H H1) as Hr.
+  destruct (step true st now ev) as [st1 o]. cbn [fst] in Hr.
+  specialize (IH st1 Hr H2). destruct (run true st1 tr). exact IH.
+Qed.
+
+Example ex_state_reachable : reachable (mkM 2 20) ex_state.
+Proof.
+  apply run_reachable; [constructor|].
+  repeat constructor; unfold m_wf, two32, two64; cbn; lia.
+Qed.
+Example ex_state_shape :
+  ex_state = mkS (mkM 1 10) (mkM 2 20) [] [mkW 2 (mkM 1 5) 21; mkW 3 (mkM 2 1) 52].
+Proof. vm_compute. reflexivity. Qed.
